@@ -1000,9 +1000,11 @@ def strip_comments(cline):
 
 
 def combine_string_literals(backend_expression, string_literals):
-    for i in range(len(string_literals)):
-        backend_expression = backend_expression.replace('___RBQL_STRING_LITERAL{}___'.format(i), string_literals[i])
-    return backend_expression
+    # All placeholders are substituted in a single pass: the text of an inserted literal is opaque and must not be searched for other placeholders
+    def get_literal(match_obj):
+        literal_id = int(match_obj.group(1))
+        return string_literals[literal_id] if literal_id < len(string_literals) else match_obj.group(0)
+    return re.sub('___RBQL_STRING_LITERAL([0-9]+)___', get_literal, backend_expression)
 
 
 def parse_join_expression(src):
@@ -1561,7 +1563,7 @@ def shallow_parse_input_query(query_text, input_iterator, tables_registry, query
 
     if UPDATE in rb_actions:
         update_expression = translate_update_expression(rb_actions[UPDATE]['text'], input_variables_map, string_literals)
-        query_context.update_expressions = combine_string_literals(update_expression, string_literals)
+        query_context.update_expressions = update_expression # String literals were already put back by translate_update_expression()
         query_context.writer.set_header(input_header)
 
 
